@@ -6,7 +6,7 @@ from lib.sysrun import Case
 
 LEVEL = "proof"
 THEOREMS = ["Kalign.C09_override_exact", "Kalign.C09_defaults_nonneg", "Kalign.C09_explicit_default_noop", "Kalign.C09_single_override",
-            "Kalign.C09_accept_indep", "Kalign.C09_defaults_dna", "Kalign.C09_defaults_internal", "Kalign.C09_defaults_protein",
+            "Kalign.C09_accept_indep", "Kalign.C09_over_cap_rejected", "Kalign.C09_defaults_within_cap", "Kalign.C09_defaults_dna", "Kalign.C09_defaults_internal", "Kalign.C09_defaults_protein",
             "Kalign.C09_defaults_divergent", "Kalign.C09_defaults_rna", "Kalign.C09_matrices_symmetric", "Kalign.C09_type_words",
             "Kalign.C09_mismatch_rejected", "Kalign.C09_default_branch_uniform"]
 CHECKER = "lake build KalignModel.Props.C09 && lake env lean KalignModel/Audit/C09.lean"
@@ -25,7 +25,7 @@ def bits_f(h):
 def unit_ops(ctx):
     rng = ctx.rng
     lines = []
-    vals = [-1.0, 0.0, -0.0, 0.5, 1.0, 5.5, 8.0, 55.0, 217.0, 1000.0, -0.001, float("nan"), float("inf"), 39.4]
+    vals = [-1.0, 0.0, -0.0, 0.5, 1.0, 5.5, 8.0, 55.0, 217.0, 1000.0, -0.001, float("nan"), float("inf"), 39.4, 1e6, 1.0000001e6, 3e38]
     types = [-1, 0, 1, 2, 3, 4, 5, 6, 7, 99, -5, 1000]
     for bt in (0, 1, 2):
         for t in types:
